@@ -419,6 +419,8 @@ class Interp:
                     return hook(args[1])
                 if isinstance(args[1], Stub) or (isinstance(args[1], tuple) and any(isinstance(x, Stub) for x in args[1])):
                     return False
+            if fn is len and len(args) == 1 and isinstance(args[0], Stub) and hasattr(args[0], "_abs_len"):
+                return args[0]._abs_len()
             if fn is type and len(args) == 1 and hasattr(args[0], "_abs_type"):
                 return args[0]._abs_type
             if fn is getattr and len(args) in (2, 3) and isinstance(args[0], Stub) and isinstance(args[1], str):
